@@ -2318,3 +2318,32 @@ variant('t-lease-age-in-total-seconds', ['C14'], 'rsocket/lease.py',
 # C04.j the invalid-frame marker is not an exception
 variant('b-invalid-frame-marker-is-an-exception', ['C12', 'C04'], 'rsocket/frame.py',
         "class InvalidFrame:", "class InvalidFrame(ParseError):", ('C04.j', 'parser output'))
+
+# C13.i an allocated id is registered in the same call
+variant_multi('b-stream-requester-registered-at-subscribe', ['C13'], [
+    ('rsocket/rsocket_base.py', """        requester = RequestStreamRequester(self, payload)
+        return self.register_new_stream(requester)""", """        requester = RequestStreamRequester(self, payload)
+        requester.stream_id = self._allocate_stream()
+        return requester"""),
+    ('rsocket/handlers/request_stream_requester.py', "        super().subscribe(subscriber)\n        self._send_stream_request(self.payload)",
+     "        super().subscribe(subscriber)\n        self.socket._register_stream(self.stream_id, self)\n        self._send_stream_request(self.payload)")],
+    ('C13.i', 'RSocketBase.request_stream'))
+variant('t-register-new-stream-inlined', ['C13'], 'rsocket/rsocket_base.py',
+        """        requester = RequestStreamRequester(self, payload)
+        return self.register_new_stream(requester)""", """        requester = RequestStreamRequester(self, payload)
+        stream_id = self._allocate_stream()
+        self._register_stream(stream_id, requester)
+        return requester""", kind='twin')
+
+# round 10: C11.k termination event, C15.b hook after the transport, C20.o default of an empty response
+variant('b-quic-orderly-close-not-signalled', ['C11'], 'rsocket/transports/aioquic_transport.py',
+        "            self.frame_queue.put_nowait(RSocketTransportError())\n",
+        "            if event.error_code != 0:\n                self.frame_queue.put_nowait(RSocketTransportError())\n",
+        ('C11.k', 'every termination'))
+variant('b-keepalive-clock-starts-before-the-transport', ['C15'], RB,
+        "                transport = await self._current_transport()\n\n                self._before_sender()\n",
+        "                self._before_sender()\n                transport = await self._current_transport()\n\n",
+        ('C15.b', 'only after the transport'))
+variant('b-rx-empty-response-echoes-the-request', ['C20'], 'rsocket/rx_support/rx_handler_adapter.py',
+        "            operators.default_if_empty(Payload()),", "            operators.default_if_empty(payload),",
+        ('C20.o', 'RxHandlerAdapter.request_response'))
